@@ -82,7 +82,7 @@ MUTANTS = {
         ("patch:own-c19-average-over-flanks",),
         ("patch:own-c19-low-depth-guard-regions",),
         ("patch:own-c19-zero-minimum-depth",),
-        ("avg-depth-guard-removed", "aldy/genotype.py", "        if avg_cov < profile.min_avg_coverage:", "        if False:"),
+        ("avg-depth-guard-removed", "aldy/genotype.py", "        if avg_cov < profile.min_avg_coverage or avg_cov <= 0:", "        if False:"),
         ("oserror-swallowed", "aldy/sam.py", "            for read in iter:\n                if not read.cigartuples:  # only valid alignments", "            for read in _safe(iter):\n                if not read.cigartuples:  # only valid alignments"),
     ],
     "C01": [
@@ -125,9 +125,7 @@ MUTANTS = {
         ("patch:own-c14-major-model-order",),
         ("patch:own-c14-gene-list-lowercased",),
         ("patch:own-c14-minor-pool-order",),
-        ("sort-by-raw-score", "aldy/genotype.py",
-         "key=lambda m: (int(1000 * m.score), m._solution_nice()),\n    )\n    log.debug(\"*\" * 80)\n\n    if multiple_warn_level >= 1",
-         "key=lambda m: (m.score, m._solution_nice()),\n    )\n    log.debug(\"*\" * 80)\n\n    if multiple_warn_level >= 1"),
+        ("patch:own-c14-minor-hash-order",),
     ],
 }
 
